@@ -334,7 +334,7 @@ void op_WHERE(World& w, const Op& op)
    w.add_region(&x->region, r, nullptr, false, "where");
    w.add_scope(&x->region);
    w.wheres.push_back(x);
-   if (w.flags.fill_at_creation || op.b % 2) {
+   if (w.flags.fill_at_creation || w.flags.complete_decls || op.b % 2) {
       auto& m = *World::pick(w.exprs, op.c);
       x->result = &m;
       rec.exp("main", N(m)).exp("first", N(m)).exp("type", Val::type_of(m));
@@ -362,7 +362,7 @@ void op_INSTANTIATION(World& w, const Op& op)
    Rec& rec = w.record_node("make_instantiation", *x, Category_code::Instantiation);
    rec.exp("pattern", N(e)).exp("substitution", Val::obj(&s)).exp("instance", Val::absent()).exp("type", Val::throws());
    w.insts.push_back(x);
-   if (w.flags.fill_at_creation || op.c % 2) {
+   if (w.flags.fill_at_creation || w.flags.complete_decls || op.c % 2) {
       auto& i = *World::pick(w.exprs, op.d);
       x->result = &i;
       rec.exp("instance", N(i)).exp("type", Val::type_of(i));
@@ -471,9 +471,11 @@ void op_MAPPING(World& w, const Op& op)
    rec.exp("parameters", N(m->inputs)).exp("result", Val::throws()).exp("type", Val::throws());
    record_plist(w, m->inputs, r, m, true, "mapping", level);
    w.mappings.push_back(m);
-   if (w.flags.fill_at_creation || op.d % 2) {
+   if (w.flags.fill_at_creation || w.flags.complete_decls || op.d % 2) {
       auto& body = *World::pick(w.exprs, op.e);
-      auto& t = *World::pick(w.types, op.f);
+      // a printable mapping is typed by a function or a template type
+      auto& t = w.flags.complete_decls && !w.functions.empty() && (op.f % 4 != 3 || w.foralls.empty()) ? static_cast<const Type&>(*World::pick(w.functions, op.f))
+                : (w.flags.complete_decls && !w.foralls.empty() ? static_cast<const Type&>(*World::pick(w.foralls, op.f)) : *World::pick(w.types, op.f));
       m->body = &body;
       m->typing = &t;
       rec.exp("result", N(body)).exp("type", N(t));
@@ -926,7 +928,7 @@ void controlled(World& w, const Op& op, S* s, const char* factory, Category_code
    Rec& rec = w.record_node(factory, *s, cat);
    rec.exp("condition", Val::throws()).exp("body", Val::throws()).exp("first", Val::throws()).exp("second", Val::throws()).exp("type", Val::throws());
    pool.push_back(s);
-   if (w.flags.fill_at_creation || op.a % 2) {
+   if (w.flags.fill_at_creation || w.flags.complete_decls || op.a % 2) {
       auto& c = *World::pick(w.exprs, op.b);
       auto& b = *World::pick(w.exprs, op.c);
       s->control = &c;
@@ -987,7 +989,7 @@ void op_FOR(World& w, const Op& op)
       .exp("body", Val::throws())
       .exp("type", Val::throws());
    w.fors.push_back(s);
-   if ((w.flags.fill_at_creation || op.a % 2) && !w.stmts.empty()) fill_for(w, s, op, 0);
+   if ((w.flags.fill_at_creation || w.flags.complete_decls || op.a % 2) && !w.stmts.empty()) fill_for(w, s, op, 0);
    w.add_stmt(stmt_handle(s));
    w.add_expr(*s, false);
    w.note("make_for");
@@ -1018,7 +1020,7 @@ void op_FOR_IN(World& w, const Op& op)
    auto s = w.L().make_for_in();
    w.record_node("make_for_in", *s, Category_code::For_in).exp("variable", Val::throws()).exp("sequence", Val::throws()).exp("body", Val::throws()).exp("type", Val::throws());
    w.for_ins.push_back(s);
-   if (w.flags.fill_at_creation || op.a % 2) fill_for_in(w, s, op);
+   if (w.flags.fill_at_creation || w.flags.complete_decls || op.a % 2) fill_for_in(w, s, op);
    w.add_stmt(stmt_handle(s));
    w.add_expr(*s, false);
    w.note("make_for_in");
@@ -1037,7 +1039,7 @@ void op_BREAK(World& w, const Op& op)
    Rec& rec = w.record_node("make_break", *s, Category_code::Break);
    rec.exp("from", Val::throws()).exp("type", N(w.L().void_type()));
    w.breaks.push_back(s);
-   if ((w.flags.fill_at_creation || op.a % 2) && !w.stmts.empty()) {
+   if ((w.flags.fill_at_creation || w.flags.complete_decls || op.a % 2) && !w.stmts.empty()) {
       auto t = World::pick(w.stmts, op.b).stmt;
       s->stmt = t;
       rec.exp("from", N(*t));
@@ -1053,7 +1055,7 @@ void op_CONTINUE(World& w, const Op& op)
    Rec& rec = w.record_node("make_continue", *s, Category_code::Continue);
    rec.exp("iteration", Val::throws()).exp("type", N(w.L().void_type()));
    w.continues.push_back(s);
-   if ((w.flags.fill_at_creation || op.a % 2) && !w.stmts.empty()) {
+   if ((w.flags.fill_at_creation || w.flags.complete_decls || op.a % 2) && !w.stmts.empty()) {
       auto t = World::pick(w.stmts, op.b).stmt;
       s->stmt = t;
       rec.exp("iteration", N(*t));
